@@ -443,29 +443,36 @@ theorem specByPtr_mem {a : Abs} {p : Str} {r : Id} (h : specByPtr a p = some r) 
     · simp at h1
     · exact h1
 
-/-- additionally: old nodes keep their value and family records keep their children -/
+/-- a HUSB / WIFE / CHIL node: the only nodes whose *value* a family view reads -/
+def isLink (a : Abs) (m : Id) : Prop := a.tag m = tHUSB ∨ a.tag m = tWIFE ∨ a.tag m = tCHIL
+
+theorem specNWT_tag {a : Abs} {n c : Id} {t : Str} (h : c ∈ specNWT a n t) : a.tag c = t := by
+  have := (List.mem_filter.mp h).2
+  simpa using this
+
+/-- additionally: old link nodes keep their value and family records keep their children -/
 structure FGFrame (a a' : Abs) : Prop extends Frame a a' where
-  value : ∀ m, m < a.heap.length → a'.value m = a.value m
+  value : ∀ m, m < a.heap.length → isLink a m → a'.value m = a.value m
   fkids : ∀ m, a.tag m = tFAM → a'.kids m = a.kids m
 
 theorem specIndividualOf_frame {a a' : Abs} (fg : FGFrame a a') (w : AWF a) {h : Id}
-    (hh : h < a.heap.length) : specIndividualOf a' h = specIndividualOf a h := by
+    (hh : h < a.heap.length) (hl : isLink a h) : specIndividualOf a' h = specIndividualOf a h := by
   unfold specIndividualOf
-  rw [fg.value h hh, specByPtr_frame fg.toFrame w]
+  rw [fg.value h hh hl, specByPtr_frame fg.toFrame w]
   split
   · rename_i r hr
     rw [fg.tag r (w.roots r (specByPtr_mem hr))]
   · rfl
 
 theorem specIsInd_frame {a a' : Abs} (fg : FGFrame a a') (w : AWF a) {h : Option Id} {i : Id}
-    (hh : ∀ x, h = some x → x < a.heap.length) (hi : i < a.heap.length) :
+    (hh : ∀ x, h = some x → x < a.heap.length ∧ isLink a x) (hi : i < a.heap.length) :
     specIsInd a' h i = specIsInd a h i := by
   unfold specIsInd
   cases h with
   | none => rfl
   | some x =>
     simp only
-    rw [specIndividualOf_frame fg w (hh x rfl)]
+    rw [specIndividualOf_frame fg w (hh x rfl).1 (hh x rfl).2]
     split
     · rfl
     · rename_i j hj
@@ -480,9 +487,9 @@ theorem specIsInd_frame {a a' : Abs} (fg : FGFrame a a') (w : AWF a) {h : Option
       rw [fg.ptr j (w.roots j this), fg.ptr i hi]
 
 theorem specIsInd_some_frame {a a' : Abs} (fg : FGFrame a a') (w : AWF a) {h i : Id}
-    (hh : h < a.heap.length) (hi : i < a.heap.length) :
+    (hh : h < a.heap.length) (hl : isLink a h) (hi : i < a.heap.length) :
     specIsInd a' (some h) i = specIsInd a (some h) i :=
-  specIsInd_frame fg w (fun x hx => by cases hx; exact hh) hi
+  specIsInd_frame fg w (fun x hx => by cases hx; exact ⟨hh, hl⟩) hi
 
 theorem any_congr_mem {α : Type} {p q : α → Bool} :
     ∀ (l : List α), (∀ x ∈ l, p x = q x) → l.any p = l.any q
@@ -511,14 +518,16 @@ theorem specHasChild_frame {a a' : Abs} (fg : FGFrame a a') (w : AWF a) {f i : I
   rw [specNWT_fam_frame fg w tCHIL hf, fg.ptr i hi]
   apply any_congr_mem
   intro c hc
-  rw [fg.value c (specNWT_lt w hc)]
+  rw [fg.value c (specNWT_lt w hc) (Or.inr (Or.inr (specNWT_tag hc)))]
 
 theorem specMember_frame {a a' : Abs} (fg : FGFrame a a') (w : AWF a) {f i : Id}
     (hf : a.tag f = tFAM) (hi : i < a.heap.length) : specMember a' i f = specMember a i f := by
   unfold specMember specHusband specWife
   rw [specHasChild_frame fg w hf hi, specNWT_fam_frame fg w tHUSB hf, specNWT_fam_frame fg w tWIFE hf]
-  rw [specIsInd_frame fg w (fun x hx => specNWT_lt w (List.mem_of_head? hx)) hi,
-      specIsInd_frame fg w (fun x hx => specNWT_lt w (List.mem_of_head? hx)) hi]
+  rw [specIsInd_frame fg w (fun x hx => ⟨specNWT_lt w (List.mem_of_head? hx),
+        Or.inl (specNWT_tag (List.mem_of_head? hx))⟩) hi,
+      specIsInd_frame fg w (fun x hx => ⟨specNWT_lt w (List.mem_of_head? hx),
+        Or.inr (Or.inl (specNWT_tag (List.mem_of_head? hx)))⟩) hi]
 
 theorem specIndFamilies_frame {a a' : Abs} (fg : FGFrame a a') (w : AWF a) {i : Id}
     (hi : i < a.heap.length) : specIndFamilies a' i = specIndFamilies a i := by
@@ -543,9 +552,11 @@ theorem specSpousesOf_frame {a a' : Abs} (fg : FGFrame a a') (w : AWF a) {f i : 
     | some x =>
       have lh : h < a.heap.length := specNWT_lt w (List.mem_of_head? hh)
       have lx : x < a.heap.length := specNWT_lt w (List.mem_of_head? hw)
+      have kh : isLink a h := Or.inl (specNWT_tag (List.mem_of_head? hh))
+      have kx : isLink a x := Or.inr (Or.inl (specNWT_tag (List.mem_of_head? hw)))
       simp only [specSpousesHW]
-      rw [specIsInd_some_frame fg w lh hi, specIsInd_some_frame fg w lx hi,
-          specIndividualOf_frame fg w lh, specIndividualOf_frame fg w lx]
+      rw [specIsInd_some_frame fg w lh kh hi, specIsInd_some_frame fg w lx kx hi,
+          specIndividualOf_frame fg w lh kh, specIndividualOf_frame fg w lx kx]
 
 theorem specSpouses_frame {a a' : Abs} (fg : FGFrame a a') (w : AWF a) {i : Id}
     (hi : i < a.heap.length) : specSpouses a' i = specSpouses a i := by
@@ -746,7 +757,7 @@ theorem ind_transfer {s t : St} (hi : Inv s) (fg : FGFrame (abs s) (abs t))
     rw [co.spo e h1 (hroots ▸ hr) ht', specSpouses_frame fg w hl]
 
 theorem Frame.refl (a : Abs) : Frame a a := ⟨Nat.le_refl _, rfl, fun _ _ => rfl, fun _ _ => rfl⟩
-theorem FGFrame.refl (a : Abs) : FGFrame a a := ⟨Frame.refl a, fun _ _ => rfl, fun _ _ => rfl⟩
+theorem FGFrame.refl (a : Abs) : FGFrame a a := ⟨Frame.refl a, fun _ _ _ => rfl, fun _ _ => rfl⟩
 
 /-- dropping cache entries (and nothing else) keeps the invariant -/
 theorem inv_shrink {s t : St} (hi : Inv s) (habs : abs t = abs s)
@@ -859,7 +870,7 @@ theorem alloc_core {s : St} (hv : InvV s) (x : NodeRec) (hx : x.kids = []) : Inv
 
 theorem alloc_inv {s : St} (hi : Inv s) (x : NodeRec) (hx : x.kids = []) : Inv (alloc x s) := by
   refine Inv.of (alloc_core hi.v x hx) (ind_transfer hi ⟨alloc_frame s x, ?_, ?_⟩ (fun _ h => h) (fun _ h => h))
-  · intro m hm; exact value_append _ _ _ _ _ hm
+  · intro m hm _; exact value_append _ _ _ _ _ hm
   · intro m hm; exact kids_append _ _ _ _ _ (tag_lt hm tFAM_ne)
 
 /-- the state after a change of `n`'s child list to `ks` (flags of repaired code) -/
@@ -945,7 +956,7 @@ theorem kidsEdit_inv {s : St} (hi : Inv s) {n : Nat} {ks : List Id} (hn : n < s.
   obtain ⟨fr, h1, h2, h3, h4⟩ := kidsEdit_core hi.v hn hks
   by_cases hf : (abs s).tag n = tFAM
   · exact Inv.of h1 (IndCoh.vacuous (h4 hf))
-  · refine Inv.of h1 (ind_transfer hi ⟨fr, fun m _ => ?_, fun m hm => ?_⟩ h2 h3)
+  · refine Inv.of h1 (ind_transfer hi ⟨fr, fun m _ _ => ?_, fun m hm => ?_⟩ h2 h3)
     · rw [abs_afterKidsEdit]; exact value_setKids _ _ _ _ _ _
     · rw [abs_afterKidsEdit]
       exact kids_setKids_ne _ _ _ _ _ _ fun e1 => hf (e1 ▸ hm)
@@ -1833,6 +1844,68 @@ theorem warningsRead_pure : Pure (fun _ => True) warningsRead := by
   refine Pure.seq (Pure.mapM' rs fun r hr => ?_) fun _ => Pure.pure ()
   exact (rootWarnReads_pure r).weaken fun a h => ⟨h.1.1, h.1.1.roots r (h.2 ▸ hr)⟩
 
+theorem value_setValue_ne (h : List NodeRec) (r r' : List Id) (n m : Nat) (v : Str) (hm : m ≠ n) :
+    (Abs.mk (setValue h n v) r').value m = (Abs.mk h r).value m := by
+  simp only [Abs.value, getElem?_setValue, hm, if_false]
+
+theorem addFresh_length (fl : Flags) (n : Id) (x : NodeRec) (s : St) :
+    (addFresh fl n x s).heap.length = s.heap.length + 1 := by
+  have : abs (addFresh fl n x s) = ⟨setKids (s.heap ++ [x]) n ((abs (alloc x s)).kids n ++ [s.heap.length]), s.roots⟩ := by
+    unfold addFresh addKid
+    rw [abs_afterKidsEdit]; rfl
+  have := congrArg (fun a => a.heap.length) this
+  simpa [setKids_length] using this
+
+/-- `AddBirthDate` and friends -/
+theorem addEventDate_good {s : St} (hi : Inv s) {i : Nat} (hin : i < s.heap.length) (t v : Str) :
+    Good s (addEventDate (Flags.goodWith b1 b2 b3) i t v s) := by
+  obtain ⟨hi1, a1, r1⟩ := nwt_sound i t s hi hin
+  have fr1 : Frame (abs s) (abs (nwt i t s).2) := Frame.of_eq a1
+  have hl : (nwt i t s).2.heap.length = s.heap.length := congrArg (fun a => a.heap.length) a1
+  unfold addEventDate
+  split
+  · rename_i e he
+    have r1' : (nwt i t s).1 = specNWT (abs s) i t := r1
+    have hm : e ∈ specNWT (abs s) i t := r1' ▸ List.mem_of_head? he
+    have hlt : e < (nwt i t s).2.heap.length := hl ▸ specNWT_lt hi.1.awf hm
+    have g := addFresh_good (b1 := b1) (b2 := b2) (b3 := b3) hi1 hlt ⟨tDATE, v, [], [], 0⟩ rfl
+    exact ⟨g.1, fr1.trans g.2⟩
+  · have g1 := addFresh_good (b1 := b1) (b2 := b2) (b3 := b3) hi1 (hl ▸ hin) ⟨t, [], [], [], 0⟩ rfl
+    have hlt : (nwt i t s).2.heap.length <
+        (addFresh (Flags.goodWith b1 b2 b3) i ⟨t, [], [], [], 0⟩ (nwt i t s).2).heap.length := by
+      rw [addFresh_length]; exact Nat.lt_succ_self _
+    have g2 := addFresh_good (b1 := b1) (b2 := b2) (b3 := b3) g1.1 hlt ⟨tDATE, v, [], [], 0⟩ rfl
+    exact ⟨g2.1, fr1.trans (g1.2.trans g2.2)⟩
+
+theorem setValue_frame (s : St) (x : Nat) (v : Str) :
+    Frame (abs s) (abs { s with heap := setValue s.heap x v }) :=
+  ⟨by simp [abs, setValue_length], rfl, fun m _ => tag_setValue _ _ _ _ _ _, fun m _ => ptr_setValue _ _ _ _ _ _⟩
+
+/-- `SetSex`: the overwritten value belongs to a SEX node, which no family view reads -/
+theorem setSex_good {s : St} (hi : Inv s) {i : Nat} (hin : i < s.heap.length) (v : Str) :
+    Good s (setSex (Flags.goodWith b1 b2 b3) i v s) := by
+  obtain ⟨hi1, a1, r1⟩ := nwt_sound i tSEX s hi hin
+  have fr1 : Frame (abs s) (abs (nwt i tSEX s).2) := Frame.of_eq a1
+  have hl : (nwt i tSEX s).2.heap.length = s.heap.length := congrArg (fun a => a.heap.length) a1
+  unfold setSex
+  split
+  · rename_i x hx
+    have r1' : (nwt i tSEX s).1 = specNWT (abs s) i tSEX := r1
+    have hm : x ∈ specNWT (abs s) i tSEX := r1' ▸ List.mem_of_head? hx
+    have htag : (abs (nwt i tSEX s).2).tag x = tSEX := a1 ▸ specNWT_tag hm
+    have fr := setValue_frame (nwt i tSEX s).2 x v
+    refine ⟨Inv.of (setValue_core hi1.v x v) (ind_transfer hi1 ⟨fr, ?_, ?_⟩ (fun _ h => h) (fun _ h => h)),
+      fr1.trans fr⟩
+    · intro m _ hlink
+      have hne : m ≠ x := by
+        intro e
+        subst e
+        rcases hlink with h | h | h <;> rw [htag] at h <;> exact absurd h (by decide)
+      exact value_setValue_ne _ _ _ _ _ _ hne
+    · intro m _; exact kids_setValue _ _ _ _ _ _
+  · have g := addFresh_good (b1 := b1) (b2 := b2) (b3 := b3) hi1 (hl ▸ hin) ⟨tSEX, v, [], [], 0⟩ rfl
+    exact ⟨g.1, fr1.trans g.2⟩
+
 theorem plainTag_ne_INDI {t : Str} (h : plainTag t = true) : t ≠ tINDI := by
   intro e; subst e; revert h; decide
 
@@ -1892,6 +1965,10 @@ theorem exec_inv {s : St} (hi : Inv s) (op : Op) (hok : op.ok (abs s) = true) :
   | addChild f i =>
     simp only [Op.ok, Bool.and_eq_true] at hok
     exact (addChild_good hi (isFam_iff.mp hok.1) (isIndi_lt hi.1 hok.2)).1
+  | addEventDate i t v =>
+    simp only [Op.ok, Bool.and_eq_true] at hok
+    exact (addEventDate_good hi (isIndi_lt hi.1 hok.1) t v).1
+  | setSex i v => exact (setSex_good hi (isIndi_lt hi.1 hok) v).1
   | read v => exact (runView_sound v s hi hok).1
   | warnings => exact (warningsRead_pure s hi trivial).1
   | string => exact hi
